@@ -81,3 +81,30 @@ Theorem C02_hyrax_one_value :
     h_check1 keylen point rows v1 pf c = Ok true -> h_check1 keylen point rows v2 pf c = Ok true -> v1 = v2.
 Proof. exact @h_check_one_value. Qed.
 Print Assumptions C02_hyrax_one_value.
+
+(* IPA (generic-group view: h is a free generator): for fixed commitments, point, proof and challenge tapes the verifier
+   accepts at most one value of the challenge-weighted combination of the claimed evaluations - whatever the proof, the
+   commitments and the degree bounds are; for one commitment without a bound, at most one claimed evaluation.  The two
+   hash-derived challenges that may be consumed before the rounds (hiding challenge, h-scaling challenge) are nonzero. *)
+From PC Require Import Schemes.IPA Proofs.IPAFacts Proofs.IPABinding.
+Theorem C02_ipa_one_combined_value :
+  forall (FO : FieldOps) (FL : FieldLaws FO) d cs z vs1 vs2 pf chal hchal r1 h1 r2 h2,
+    length vs1 = length cs -> length vs2 = length cs ->
+    Forall (fun rc => rc <> 0) (firstn 2 hchal) ->
+    i_check d cs z vs1 pf chal hchal = Ok (true, r1, h1) ->
+    i_check d cs z vs2 pf chal hchal = Ok (true, r2, h2) ->
+    match chal with
+    | c0 :: chal0 => dot (sc_weights d z cs c0 chal0) vs1 = dot (sc_weights d z cs c0 chal0) vs2
+    | [] => False
+    end.
+Proof. exact @ipa_check_one_combined_value. Qed.
+Print Assumptions C02_ipa_one_combined_value.
+
+Theorem C02_ipa_one_value :
+  forall (FO : FieldOps) (FL : FieldLaws FO) d cm z v1 v2 pf c0 chal0 hchal r1 h1 r2 h2,
+    c0 <> 0 -> Forall (fun rc => rc <> 0) (firstn 2 hchal) ->
+    i_check d [(cm, None)] z [v1] pf (c0 :: chal0) hchal = Ok (true, r1, h1) ->
+    i_check d [(cm, None)] z [v2] pf (c0 :: chal0) hchal = Ok (true, r2, h2) ->
+    v1 = v2.
+Proof. exact @ipa_check_one_value. Qed.
+Print Assumptions C02_ipa_one_value.
